@@ -21,9 +21,10 @@ CONSTANTS MaxAtoms, LeftIdx, ElemIdx, Mode      \* Mode: "markup" | "stylesheet"
 
 Lefts == <<"", " ", "foo ", "<div>", "<a href=\"x\">", "<br/>", "</p>", "<i title=x>", "\t", "a{", "color: red; ",
           "<p\thidden>", "<a b=c\td e='f'>", "<br\t/>",
-          "<a x=\"it's\" y>", "<i t='say \"hi\"' />">>            \* a quoted value holding the other kind of quote, then more of the tag          \* tags written with tabs between their parts
+          "<a x=\"it's\" y>", "<i t='say \"hi\"' />",
+          "text<b>", "Hello<br/>", "a1<i t=u>">>            \* a quoted value holding the other kind of quote, then more of the tag          \* tags written with tabs between their parts
 Elems == <<"a", "b1", "ul.c", "li[title=x]", "p{x>y}", "a[t=\"v w\"]", "em*3", "(a+b)", ".c", "#i.d", "x[b=c]", "h1{a b}", "td[colspan=2]*2", "a[t=\"f(a, b)\"]", "x[o=\"g('y')\"]", "p{f(a, b) c}">>
-CssElems == <<"p10", "m10-20", "c#f.5", "bd1-s#f!", "lg(top,#fc0)", "w100p", "pos:a", "@kf">>
+CssElems == <<"p10", "m10-20", "c#f.5", "bd1-s#f!", "lg(top,#fc0)", "w100p", "pos:a", "@kf", "w100%", "m10%-20%", "fz120%!">>
 Ops == IF Mode = "markup" THEN {">", "+", "^"} ELSE {"+"}
 (* abbreviations whose last bracket / quote is still open, with what the editor auto-inserts after the caret *)
 OpenEnds == IF Mode = "markup" THEN << <<"a[t", "]">>, <<"a{x", "}">>, <<"(a+b", ")">>, <<"a[t=\"v", "\"]">>, <<"p>(a{x", "})">> >>
